@@ -44,6 +44,7 @@ CONSTANTS
   Kinds,                   \* enabled call kinds
   Threads,                 \* sequence of caller ids; sequential mode uses the first only
   Sequential,              \* TRUE: big steps
+  RetryGhost,              \* TRUE: remember per object which re-parenting calls were refused (see NoObj.rf)
   Preload                  \* sequence of calls executed (big steps) to build the initial state
 
 VARIABLES w, op
@@ -138,7 +139,12 @@ CheckMemoryIdeal(mem, rsvp, limit, prio, MaxI) ==
 (* Objects                                                                 *)
 (***************************************************************************)
 NoObj == [st |-> "none", dir |-> "", fd |-> FALSE, ep |-> "", al |-> FALSE, ipv |-> FALSE,
-          peer |-> "", proto |-> "", svc |-> "", edges |-> <<>>, owner |-> ""]
+          peer |-> "", proto |-> "", svc |-> "", edges |-> <<>>, owner |-> "",
+          \* ghost: re-parenting calls (setpeer, setprotocol, setservice) refused for a limit on this object so far.
+          \* It changes nothing in the model, but it makes "after a refusal" a different graph node, so that the
+          \* covering walks retry every re-parenting call after every refusal, also once room has appeared
+          \* (an implementation may remember something across a refused attempt; the model cannot know what).
+          rf |-> {}]
 Idle == [k |-> "idle"]
 
 W0 == [use   |-> [x \in All |-> Z],
@@ -382,7 +388,9 @@ Exec1(ww, t) ==
                           !.pendc[t] = [b \in DOMAIN @ |-> IF b \in EpBuckets[st.ep] THEN @[b] - 1 ELSE @[b]]], rest)
        [] st.k = "Ret" ->
             LET e == IF st.err = "dyn" THEN pr.err ELSE st.err
-                w1 == ApplyFin(ww, st.fin)
+                w0 == ApplyFin(ww, st.fin)
+                w1 == IF RetryGhost /\ e = "limit" /\ pr.call.name \in {"setpeer", "setprotocol", "setservice"}
+                      THEN [w0 EXCEPT !.obj[pr.call.h].rf = @ \cup {pr.call.name}] ELSE w0
             IN [w |-> [w1 EXCEPT !.proc[t] = Idle, !.pend[t] = [s \in Named |-> Z],
                                  !.pendc[t] = [b \in DOMAIN Cap |-> 0]],
                 done |-> TRUE, err |-> e]
@@ -567,7 +575,7 @@ Zero == (Quiet(w) /\ OpenObjs(w, ObjIds) = {} /\ \A x \in All : w.held[x] = 0)
           => (\A x \in All : w.use[x] = Z) /\ (\A b \in DOMAIN Cap : w.cnt[b] = 0)
 
 \* AllOrNothing (sequential mode): a refused call changes nothing that is observable
-Observable(ww) == <<ww.use, ww.cnt, ww.held, [o \in ObjIds |-> [ww.obj[o] EXCEPT !.edges = <<>>]]>>
+Observable(ww) == <<ww.use, ww.cnt, ww.held, [o \in ObjIds |-> [ww.obj[o] EXCEPT !.edges = <<>>, !.rf = {}]]>>
 AllOrNothing == [][(Sequential /\ op'.name # "gc" /\ op'.err # "nil") => Observable(w') = Observable(w)]_vars
 \* memory granted at priority p leaves every charged scope within limit*(1+p)/256
 PrioBound == [][(Sequential /\ op'.name = "reserve" /\ op'.err = "nil") =>
